@@ -399,6 +399,7 @@ class SimNet(object):
         self.writes_after_close = []
         self.connects_after_close = []
         self.dead_pids = set()
+        self.aliases = {}  # (host, port) -> callable() -> (host, port): DNS-like names
 
     def fault(self, kind, n=1):
         self.fault_counts[kind] = self.fault_counts.get(kind, 0) + n
@@ -466,7 +467,10 @@ class SimNet(object):
             if pid in self.dead_pids:
                 att["outcome"] = "dead"
                 return
-            acceptor = self.listeners.get((host, port))
+            target = (host, port)
+            if target in self.aliases:
+                target = self.aliases[target]() or target
+            acceptor = self.listeners.get(target)
             if acceptor is None:
                 att["outcome"] = "refused"
                 sim.record("connect_refused", pid, host, port)
